@@ -106,7 +106,7 @@ def fin_base(ix):
     return base
 
 
-def cell(ix, st, target, cache_flag, start, t, fs_paused=True, kind="matrix"):
+def cell(ix, st, target, cache_flag, start, t, fs_paused=True, kind="matrix", bank_flags=0):
     base = fin_base(ix)
     group = dict(base["fields"])["group"]
     c = base
@@ -117,6 +117,8 @@ def cell(ix, st, target, cache_flag, start, t, fs_paused=True, kind="matrix"):
     label, bank = target
     if bank is not None:
         c = A.with_tweak(c, f"bstate:{bank}:{STATES[st]}")
+        if bank_flags:
+            c = A.with_tweak(c, f"bflag:{bank}:{bank_flags}:1")
     return meta(A.line(c, t=t), k=kind, st=st, tg=label, cf=("-" if cache_flag is None else cache_flag), S=start, T=t)
 
 
@@ -131,6 +133,13 @@ def matrix():
                     S = max(0, -d)      # the clock never runs before the fixture's time
                     lines.append(cell(ix, st, target, 1, S, S + d))                        # propagated
                     lines.append(cell(ix, st, target, None, S, S + d))                     # paused globally, cache not updated
+    # the gate must not depend on the bank's flag word: the sunset flags (token-less repayments allowed / complete) on
+    # banks of every state
+    for ix in DEPOSIT_FAMILY + WITHDRAW_FAMILY:
+        for target in bank_targets(ix):
+            for st in STATES:
+                for fl in (32, 96):
+                    lines.append(cell(ix, st, target, None, 0, 0, fs_paused=False, kind="matrix", bank_flags=fl))
     lines += valuation_cells()
     return lines
 
@@ -180,8 +189,9 @@ def suites(rng, tier):
         {"suite": "auth", "name": "gate-matrix", "lines": m,
          "distribution": {"financial_instructions": len(FINANCIAL), "states": list(STATES), "timings": TIMINGS, "cells": len(m)}},
         {"suite": "auth", "name": "gate-random", "lines": r, "distribution": {"cells": len(r)}},
-        {"suite": "auth", "name": "validate-bank-state-fn", "lines": [f"G {s} {k}" for s in range(4) for k in range(4)],
-         "distribution": {"exhaustive": "4 states x 4 kinds"}},
+        {"suite": "auth", "name": "validate-bank-state-fn",
+         "lines": [f"G {s} {k}" for s in range(4) for k in range(4)] + [f"G {s} {k} {fl}" for s in range(4) for k in range(4) for fl in range(1, 128)],
+         "distribution": {"exhaustive": "4 states x 4 kinds x every combination of the 7 low bank flag bits (the gate must not depend on them)"}},
         pause_cache_suite(rng, {"quick": 1200, "thorough": 30000, "search": 8000}[tier]),
         reduce_only_suite(rng, {"quick": 400, "thorough": 6000, "search": 3000}[tier]),
         killed_suite(rng, {"quick": 150, "thorough": 3000, "search": 1000}[tier]),
@@ -289,8 +299,7 @@ def oracle(suite, case, impl):
         return v if v and v["key"].startswith("group-") else None
     if case.startswith("G "):
         # the property's table: paused -> nothing; reduce-only -> no deposit/borrow; killed -> nothing
-        _, st, kd = case.split()
-        st, kd = int(st), int(kd)
+        st, kd = int(case.split()[1]), int(case.split()[2])
         deposit_kind, withdraw_kind = kd == 3, kd == 2
         refuse = st == 3 or (st == 0 and (deposit_kind or withdraw_kind)) or (st == 2 and deposit_kind)
         allow = st == 1 or (st == 2 and withdraw_kind)
@@ -338,6 +347,9 @@ def oracle(suite, case, impl):
     must_refuse = gated and (st in ("Paused", "KilledByBankruptcy") or (st == "ReduceOnly" and ix in DEPOSIT_FAMILY))
     if must_refuse and accepted:
         return {"key": f"bank-state-not-enforced:{ix}:{st}", "what": f"{ix} accepted on a {st} bank ({k['tg']})"}
+    sunset = any(t.startswith("bflag:") and int(t.split(":")[2]) & 32 for t in k.get("tw", "-").split(";"))
+    if sunset and ix in DEPOSIT_FAMILY:
+        return None        # deposits / borrows on a bank flagged for token-less repayments are refused by their own account constraints
     if not must_refuse and not accepted:
         why = "pause expired" if cf == "1" else "no pause in force for the group"
         return {"key": f"refused-without-reason:{ix}:{st}", "what": f"{ix} refused ({impl}) on a {st} bank although {why} (T-S={T - S})"}
